@@ -21,18 +21,46 @@ type Conn struct {
 
 var waitContext = context.Background()
 
+// maxWritePiece is the most that is written before the limiter is consulted again.
+const maxWritePiece = 32 * 1024
+
+// wait charges n bytes to the limiter. WaitN refuses more than the burst at once:
+// charge in pieces, a single large I/O must not go unaccounted.
+func wait(l *rate.Limiter, n int) {
+	for b := l.Burst(); n > 0 && b > 0; {
+		k := min(n, b)
+		l.WaitN(waitContext, k)
+		n -= k
+	}
+}
+
 func (c *Conn) Read(b []byte) (n int, err error) {
 	n, err = c.Conn.Read(b)
 	if n > 0 && c.rxLimiter != nil {
-		c.rxLimiter.WaitN(waitContext, n)
+		wait(c.rxLimiter, n)
 	}
 	return
 }
 
 func (c *Conn) Write(b []byte) (n int, err error) {
-	n, err = c.Conn.Write(b)
-	if n > 0 && c.txLimiter != nil {
-		c.txLimiter.WaitN(waitContext, n)
+	if c.txLimiter == nil {
+		return c.Conn.Write(b)
+	}
+
+	// The limiter is charged after the bytes have gone out: pass a large buffer on in pieces,
+	// otherwise all of it leaves at once whatever the limit.
+	for len(b) > 0 {
+		p := b[:min(len(b), maxWritePiece)]
+		var m int
+		m, err = c.Conn.Write(p)
+		n += m
+		if m > 0 {
+			wait(c.txLimiter, m)
+		}
+		if err != nil {
+			return
+		}
+		b = b[len(p):]
 	}
 	return
 }
